@@ -39,14 +39,14 @@ def parse_result_file(path):
     res["verdict"] = m.group(1) if m else None
     m = re.search(r"Verification Time: ([0-9.]+)s", txt)
     res["time_s"] = float(m.group(1)) if m else None
-    if "CBMC failed" in txt or "Status: ERROR" in txt or "out of memory" in txt.lower():
+    if "CBMC failed" in txt or "Status: ERROR" in txt or "ran out of memory" in txt.lower() or "std::bad_alloc" in txt:
         res["error"] = "cbmc error / out of memory"
-    if "CBMC timed out" in txt or "timed out" in txt:
+    if "CBMC timed out" in txt or re.search(r"^\s*(Verification )?[Tt]imed out", txt, re.M):
         res["error"] = "timeout"
     return res
 
 
-def classify(res, harness_src_prefix="src/h_"):
+def classify(res, harness_src_prefix="src/h_", must_cover=()):
     """-> (status, tags, notes). status in pass|fail|inconclusive."""
     if res is None:
         return "inconclusive", [], ["no result (timeout or crash before CBMC finished)"]
@@ -72,6 +72,12 @@ def classify(res, harness_src_prefix="src/h_"):
         return "inconclusive", tags, ["unwinding assertion failed: bound too small"]
     if unsupported:
         return "inconclusive", tags, notes
+    # (Kani assumes an assertion after checking it, so witnesses behind a failing assertion are unreachable: required
+    # witnesses are only judged when no assertion failed.)
+    if not unwind and not unsupported and not tags:
+        for t in must_cover:
+            if res["covers"].get(t) == "UNSATISFIABLE":
+                tags.append("unsat_cover:" + t)
     if tags:
         return "fail", sorted(set(tags)), notes
     if res["undetermined"]:
@@ -170,6 +176,18 @@ def native_replay(path, features=(), release=False):
             except Exception:
                 pass
     return {"error": "no output", "rc": rc, "raw": out[-500:]}
+
+
+def native_random(short, features=(), trials=20000, seed=1):
+    exe = build_replay(features, release=False)
+    rc, out, _ = sh([exe, "--random", short, str(trials), str(seed)], timeout=600)
+    for line in out.splitlines():
+        if line.strip().startswith("{"):
+            try:
+                return json.loads(line)
+            except Exception:
+                pass
+    return {"error": "no output", "raw": out[-300:]}
 
 
 def write_replay(check_id, harness, script, extra=None, idx=0):
